@@ -503,7 +503,7 @@ func wrappingOrder(c *core.Ctx, r *core.Report) {
 				}
 			}
 			wj, isWJ := an.Strip(rateArg).(*ssa.Call)
-			okIn := isWJ && an.IsFunc(an.Callee(wj), apiPkg, "WithJitter")
+			okIn := isWJ && isJitterMaker(c, an.Callee(wj))
 			// nothing wraps the distributed rate again
 			okOut := true
 			for _, ref := range an.Referrers(nd) {
@@ -512,7 +512,7 @@ func wrappingOrder(c *core.Ctx, r *core.Report) {
 					continue
 				}
 				for _, use := range an.Referrers(ex) {
-					if uc, isCall := use.(*ssa.Call); isCall && an.IsFunc(an.Callee(uc), apiPkg, "WithJitter") {
+					if uc, isCall := use.(*ssa.Call); isCall && isJitterMaker(c, an.Callee(uc)) {
 						okOut = false
 					}
 				}
@@ -640,6 +640,11 @@ func restartDelivery(c *core.Ctx, r *core.Report) {
 					}
 					if fld, _ := an.TerminalField(st.Chan); an.SameField(fld, restart) {
 						n++
+						if !x.Blocking && reportsOutcome(fn) {
+							// a try-variant next to the blocking one: the caller is told that nothing was sent
+							r.OK(core.FuncName(fn)+"#restart-send", an.Pos(c, in), "non-blocking send whose outcome is returned to the caller (true: sent, false: not sent)")
+							continue
+						}
 						r.Check(x.Blocking, core.FuncName(fn)+"#restart-send", an.Pos(c, in), "the send waits for the runner", "Restart gives up when the runner is not waiting in its select at that moment (select with default): a Restart arriving while the function executes is silently dropped and the runner never returns to the first schedule")
 					}
 				}
@@ -1461,4 +1466,40 @@ func literalLeafFieldStores(al ssa.Value) map[string][]ssa.Value {
 	}
 	walk(al, 0)
 	return out
+}
+
+// reportsOutcome: fn returns a single bool, and both `true` and `false` are returned as constants (a try-operation
+// telling its caller whether it took effect).
+func reportsOutcome(fn *ssa.Function) bool {
+	res := fn.Signature.Results()
+	if res.Len() != 1 {
+		return false
+	}
+	if b, ok := res.At(0).Type().Underlying().(*types.Basic); !ok || b.Kind() != types.Bool {
+		return false
+	}
+	sawT, sawF := false, false
+	var visit func(v ssa.Value, depth int)
+	visit = func(v ssa.Value, depth int) {
+		switch x := v.(type) {
+		case *ssa.Const:
+			if x.Value != nil && x.Value.Kind() == constant.Bool {
+				if constant.BoolVal(x.Value) {
+					sawT = true
+				} else {
+					sawF = true
+				}
+			}
+		case *ssa.Phi:
+			if depth > 0 {
+				for _, e := range x.Edges {
+					visit(e, depth-1)
+				}
+			}
+		}
+	}
+	for _, ret := range an.Returns(fn) {
+		visit(ret.Results[0], 3)
+	}
+	return sawT && sawF
 }
